@@ -149,6 +149,18 @@ class Target:
             info['dropped_statements'] += [f'{f.tu}:{ln}' for ln in P.dropped]
             if f.cname == self.enforce:
                 enforced_printer = P
+        # a prelude may declare an extracted function ahead of its definition (stubs that call back into extracted code):
+        # such a hand-written prototype must match the extracted signature exactly (goto-cc tolerates a mismatch)
+        try:
+            ptext = open(os.path.join(VERIF, self.prelude)).read()
+        except OSError:
+            ptext = ''
+        norm = lambda ps: [re.sub(r'\s+', ' ', re.sub(r'\b\w+$', '', x.strip())).strip() for x in ps]
+        for f in self.fns:
+            for m in re.finditer(r'(?m)^(?:static[ \t]+)?(?:struct[ \t]+)?\w+[ \t\*]+' + re.escape(f.cname) + r'\s*\(([^;{()]*)\)\s*;', ptext):
+                if norm(m.group(1).split(',')) != norm(f.printer.params):
+                    raise ExtractionError(f'{self.name}: prototype of {f.cname} in {self.prelude} does not match the extracted '
+                                          f'signature {f.printer.signature}')
         harness = self.harness
         if harness is None:
             if enforced_printer is None:
